@@ -62,6 +62,15 @@ theorem vw_sublist_ends (big eps : α) (L : List (Fix α)) (h2 : 2 ≤ L.length)
   rw [List.length_map] at this
   omega
 
+/-- T7 (the freedom left by ties): **whichever** of several equally far fixes is taken as the split point
+(`dpAllFuel` enumerates all such runs; the correspondence check accepts exactly these), the result is a
+sub-sequence of the input that keeps both ends. Any scalar type. -/
+theorem dp_any_tiebreak (sqrt : α → α) (eps : α) (L out : List (Fix α))
+    (h : out ∈ dpAllFuel sqrt eps L.length L) :
+    out.Sublist L ∧ out.head? = L.head? ∧ out.getLast? = L.getLast? :=
+  ⟨dpAllFuel_sublist sqrt eps L.length L out h, (dpAllFuel_ends sqrt eps L.length L out h).1,
+   (dpAllFuel_ends sqrt eps L.length L out h).2⟩
+
 /-- a one-fix track is returned unchanged by both algorithms -/
 theorem single_fix (sqrt : α → α) (big eps : α) (p : Fix α) :
     douglasPeucker sqrt eps [p] = some [p] ∧ visvalingam big eps [p] = [p] := by
@@ -85,6 +94,13 @@ theorem dist_seg_spec (sqrt : α → α) (hs : SqrtOK sqrt) (x0 y0 x1 y1 x2 y2 :
         q2 x0 y0 x1 y1 x2 y2 t) :=
   TV.Simplify.dist_seg_spec sqrt hs x0 y0 x1 y1 x2 y2
 
+/-- T4 (executable form): `distance_to_segment² = distSegSq`, the square-root-free closed form that the driver
+evaluates exactly on rationals to cross-check the harness' oracle. -/
+theorem dist_sq_eq (sqrt : α → α) (hs : SqrtOK sqrt) (x0 y0 x1 y1 x2 y2 : α) :
+    distanceToSegment sqrt x0 y0 x1 y1 x2 y2 * distanceToSegment sqrt x0 y0 x1 y1 x2 y2 =
+      distSegSq x0 y0 x1 y1 x2 y2 :=
+  TV.Simplify.dist_sq_eq sqrt hs x0 y0 x1 y1 x2 y2
+
 /-- T3: Douglas–Peucker is defined (terminates) for every track — empty, one fix, closed loops, repeated
 positions — and every tolerance `eps > 0`. -/
 theorem dp_total (sqrt : α → α) (hs : SqrtOK sqrt) (eps : α) (heps : 0 < eps) (L : List (Fix α)) :
@@ -99,6 +115,17 @@ theorem dp_tolerance (sqrt : α → α) (hs : SqrtOK sqrt) (eps : α) (L out : L
     (h : douglasPeucker sqrt eps L = some out) (h2 : 2 ≤ L.length) :
     ∀ p ∈ L, ∃ a b, [a, b] <:+: out ∧ ∃ t, 0 ≤ t ∧ t ≤ 1 ∧ q2 p.x p.y a.x a.y b.x b.y t ≤ eps * eps :=
   dpFuel_tolerance sqrt hs eps L.length L out h h2
+
+/-- T7 (continued): the tolerance also holds whichever farthest fix is taken, and the code's own result
+(first farthest fix) is one of the enumerated runs. -/
+theorem dp_any_tiebreak_tolerance (sqrt : α → α) (hs : SqrtOK sqrt) (eps : α) (heps : 0 < eps) (L : List (Fix α))
+    (h2 : 2 ≤ L.length) :
+    (∀ out ∈ dpAllFuel sqrt eps L.length L, ∀ p ∈ L,
+      ∃ a b, [a, b] <:+: out ∧ ∃ t, 0 ≤ t ∧ t ≤ 1 ∧ q2 p.x p.y a.x a.y b.x b.y t ≤ eps * eps) ∧
+    (∀ out, douglasPeucker sqrt eps L = some out → out ∈ dpAllFuel sqrt eps L.length L) :=
+  ⟨fun out h => dpAllFuel_tolerance sqrt hs eps L.length L out h h2,
+   fun out h => dpFuel_mem_all sqrt eps heps
+     (fun a b => by rw [distFix_self sqrt hs a b]; exact lt_irrefl 0) L.length L out h⟩
 
 /-- the statement of C16 for Douglas–Peucker in one piece -/
 theorem dp_correct (sqrt : α → α) (hs : SqrtOK sqrt) (eps : α) (heps : 0 < eps) (L : List (Fix α))
